@@ -1,6 +1,304 @@
 /-
-  C15 — property theorems (placeholder: no theorem yet, the property is not claimed).
+  C15 — text layout: "draw returns the position that measure_string predicts, so drawing s1 and then s2
+  at the returned position equals drawing s1 + s2 for fonts without spacing. Alignment places each line
+  so that its box starts at (Left), ends at (Right) or is centred within half a pixel on (Center) the x
+  position, the baseline setting shifts the first line by the documented offset, text containing \n equals
+  drawing its lines separately line_height apart, and \r\n behaves exactly like \n." (properties.jsonl)
+
+  Property theorems only (helper lemmas: EG/Lemmas/TextLayout*.lean). Statements are about the models
+  `EG.Model.TextLayout` (src/text/{text,mod,text_style}.rs, `measure_string` of
+  src/mono_font/mono_text_style.rs, as they are after the `fix:` commits for #10 and #13) and
+  `EG.Model.Font` (`draw_string`), tied to the real code by the `text.*` streams.
+
+  All theorems are [P]: every font record (any metrics, any spacing unless stated), every string, every
+  position, every style. Characters are code points; `\n` = 10, `\r` = 13.
+
+  -- [V] picture (pixel map) equality of chained drawing `s1` then `s2` vs `s1 ++ s2` on a target (last write wins between glyph cells and the two decoration rectangles): carried by correspondence + oracle only; proved here: same glyph calls, same returned position, decoration rectangle of the whole = union of the parts
+  -- [V] drawn extent of a line (glyph bitmaps may leave columns of the line box empty when no background colour is set): the alignment theorems are about the line box `measure_string` reports and `draw_string` is given; the oracle checks the drawn extent with a background colour
+  -- [V] `i32` overflow of positions (`y += line_height`, `x + width`) is not modelled (C08): carried by correspondence + oracle only
+  -- [V] observation outside the quantifier (custom font with spacing > 0, neither text nor background colour): `draw_string` returns one trailing spacing more than `measure_string` (`draw_next_transparent_with_spacing`, witness in corpus/C15.ops): checked on the real code by the oracle, not a claim of the property
 -/
-import EG.Basic.Core
+import EG.Lemmas.TextLayoutChain
+import EG.Lemmas.TextLayoutCrlf
 namespace EG.C15
+open EG EG.Font EG.TextLayout
+
+/-! ### 1. `draw` returns the position `measure_string` predicts -/
+
+/-- `draw_string` returns `measure_string(..).next_position`: for ANY character spacing when a text or a
+background colour is set (the glyph loop advances cell by cell), and for fonts without spacing — all
+built-in fonts — (or an empty text) when neither is set. -/
+theorem draw_next_eq_measure (f : MonoFont) (atlas : Pt → Bool) (st : Style) (text : List Nat) (p : Pt)
+    (bl : Baseline)
+    (h : st.textColor ≠ none ∨ st.bgColor ≠ none ∨ f.spacing = 0 ∨ text = []) :
+    (f.drawString atlas st text p bl).2 = (measureString f st text p bl).next := by
+  rw [drawString_next, measureString_next,
+    drawAdvance_eq_bbWidth f st text.length (by
+      rcases h with h | h | h | h
+      · exact Or.inl h
+      · exact Or.inr (Or.inl h)
+      · exact Or.inr (Or.inr (Or.inl h))
+      · exact Or.inr (Or.inr (Or.inr (by simp [h]))))]
+
+example : (⟨none, some 3, .none, .none⟩ : Style).textColor ≠ none ∨ (⟨none, some 3, .none, .none⟩ : Style).bgColor ≠ none
+    ∨ (2 : Nat) = 0 ∨ [65, 66] = ([] : List Nat) := by decide
+
+/-- The remaining case, exactly: neither text nor background colour, at least one character — the
+returned position is `spacing` further right than `measure_string` predicts (the `(None, None)` arm
+multiplies `cw + spacing` by the character count without taking the trailing spacing off). For built-in
+fonts `spacing = 0`, so this is `draw_next_eq_measure` again; for a custom font with spacing it is the
+recorded observation. -/
+theorem draw_next_transparent_with_spacing (f : MonoFont) (atlas : Pt → Bool) (st : Style) (text : List Nat)
+    (p : Pt) (bl : Baseline) (htc : st.textColor = none) (hbg : st.bgColor = none) (hne : text ≠ []) :
+    (f.drawString atlas st text p bl).2 =
+      ⟨(measureString f st text p bl).next.x + (f.spacing : Int), (measureString f st text p bl).next.y⟩ := by
+  have hn : 0 < text.length := List.length_pos_iff.mpr hne
+  rw [drawString_next, measureString_next, drawAdvance_transparent f st text.length htc hbg hn, Pt.ext_iff']
+  refine ⟨?_, rfl⟩
+  simp only [Int.natCast_add]
+  omega
+
+/-- Witness of the observation (font 5x7, spacing 1, "AB", decorations only): returns x = 12, predicted 11. -/
+example : ((⟨80, 42, 5, 7, 1, 5, 8, 1, 3, 1, fun _ => 0⟩ : MonoFont).drawString (fun _ => false)
+      ⟨none, none, .custom 9, .none⟩ [65, 66] ⟨0, 0⟩ .top).2 = ⟨12, 0⟩ ∧
+    (measureString (⟨80, 42, 5, 7, 1, 5, 8, 1, 3, 1, fun _ => 0⟩ : MonoFont)
+      ⟨none, none, .custom 9, .none⟩ [65, 66] ⟨0, 0⟩ .top).next = ⟨11, 0⟩ := by decide
+
+/-- `Text::draw` returns what `draw_string` returned for the LAST line (there always is one), hence —
+with `draw_next_eq_measure` — `measure_string(last line, its position).next_position`. -/
+theorem text_draw_returns_last_line (f : MonoFont) (atlas : Pt → Bool) (t : Text) :
+    ∃ lp, (lines f t).getLast? = some lp ∧
+      (draw f atlas t).2 = (f.drawString atlas t.style lp.1 lp.2 t.ts.baseline).2 := by
+  have hne := lines_ne_nil f t
+  cases h : (lines f t).getLast? with
+  | none => exact absurd (List.getLast?_eq_none_iff.mp h) hne
+  | some lp =>
+    refine ⟨lp, rfl, ?_⟩
+    unfold draw
+    rw [drawLines_next, h]
+
+theorem text_draw_next_eq_measure (f : MonoFont) (atlas : Pt → Bool) (t : Text)
+    (h : t.style.textColor ≠ none ∨ t.style.bgColor ≠ none ∨ f.spacing = 0) :
+    ∃ lp, (lines f t).getLast? = some lp ∧
+      (draw f atlas t).2 = (measureString f t.style lp.1 lp.2 t.ts.baseline).next := by
+  obtain ⟨lp, h1, h2⟩ := text_draw_returns_last_line f atlas t
+  refine ⟨lp, h1, ?_⟩
+  rw [h2]
+  exact draw_next_eq_measure f atlas t.style lp.1 lp.2 t.ts.baseline (by
+    rcases h with h | h | h
+    · exact Or.inl h
+    · exact Or.inr (Or.inl h)
+    · exact Or.inr (Or.inr (Or.inl h)))
+
+/-! ### 2. Chaining (fonts without spacing) -/
+
+/-- Returned positions chain: `draw_string(s1 ++ s2, p)` returns what drawing `s2` at the position
+returned for `s1` returns. -/
+theorem chaining_next (f : MonoFont) (h : f.spacing = 0) (atlas : Pt → Bool) (st : Style) (s1 s2 : List Nat)
+    (p : Pt) (bl : Baseline) :
+    (f.drawString atlas st (s1 ++ s2) p bl).2 =
+      (f.drawString atlas st s2 (f.drawString atlas st s1 p bl).2 bl).2 :=
+  drawString_next_append f h atlas st s1 s2 p bl
+
+example : (⟨64, 36, 4, 6, 0, 4, 6, 1, 3, 1, fun _ => 0⟩ : MonoFont).spacing = 0 := rfl
+
+/-- The glyph cells coincide: the calls `draw_string_binary` makes for `s1 ++ s2` (one `fill_contiguous`
+per character: which atlas cell, into which target cell) are those for `s1` followed by those for `s2`
+started at the position returned for `s1`. -/
+theorem chaining_cells (f : MonoFont) (h : f.spacing = 0) (atlas : Pt → Bool) (hasBg : Bool) (s1 s2 : List Nat)
+    (p : Pt) :
+    (f.drawStringBinary atlas hasBg (s1 ++ s2) p).1 =
+      (f.drawStringBinary atlas hasBg s1 p).1 ++
+        (f.drawStringBinary atlas hasBg s2 (f.drawStringBinary atlas hasBg s1 p).2).1 := by
+  simp only [drawStringBinary_closed, binCalls_append f h]
+
+/-- The decoration rectangle (underline or strikethrough) over the whole width covers exactly the
+pixels of the rectangle over `s1` and the rectangle over `s2` started at the returned position. -/
+theorem chaining_decorations (off hgt : Nat) (p : Pt) (w1 w2 : Nat) (q : Pt) :
+    (decoRect off hgt p (w1 + w2)).contains q = true ↔
+      (decoRect off hgt p w1).contains q = true ∨ (decoRect off hgt ⟨p.x + (w1 : Int), p.y⟩ w2).contains q = true :=
+  decoRect_split off hgt p w1 w2 q
+
+/-- `Text` level, one line, left aligned: drawing `Text(s1)` and then `Text(s2)` at the returned
+position returns what `Text(s1 ++ s2)` returns. (`s1` must not end in `\r`: a trailing `\r` is stripped
+only when it is last.) -/
+theorem chaining_text (f : MonoFont) (h : f.spacing = 0) (atlas : Pt → Bool) (st : Style) (ts : TextStyle)
+    (hal : ts.alignment = .left) (s1 s2 : List Nat) (p : Pt) (h1 : 10 ∉ s1) (h2 : 10 ∉ s2)
+    (hcr : s1.getLast? ≠ some 13) :
+    (draw f atlas ⟨s1 ++ s2, p, st, ts⟩).2 =
+      (draw f atlas ⟨s2, (draw f atlas ⟨s1, p, st, ts⟩).2, st, ts⟩).2 := by
+  have h12 : 10 ∉ s1 ++ s2 := by simp [h1, h2]
+  rw [draw_single f atlas ⟨s1 ++ s2, p, st, ts⟩ h12, draw_single f atlas ⟨s2, _, st, ts⟩ h2,
+    draw_single f atlas ⟨s1, p, st, ts⟩ h1]
+  simp only [alignedPos_left f st ts _ _ hal, drawString_next, stripCR_append_length s1 s2 hcr,
+    drawAdvance_add f h]
+  rw [Pt.ext_iff']
+  refine ⟨?_, rfl⟩
+  simp only [Int.natCast_add]
+  omega
+
+example : (10 : Nat) ∉ [72, 105] ∧ ([72, 105] : List Nat).getLast? ≠ some 13 := by decide
+
+/-- With a `\n` the continuation does NOT start at the returned position: the text after the `\n` starts at
+the text's own x, one line height below (see `multiline_eq_lines`); chaining is a statement about one line. -/
+theorem chaining_across_newline (f : MonoFont) (atlas : Pt → Bool) (s1 s2 : List Nat) (p : Pt) (st : Style)
+    (ts : TextStyle) (h : 10 ∉ s1) :
+    (draw f atlas ⟨s1 ++ 10 :: s2, p, st, ts⟩).2 =
+      (draw f atlas ⟨s2, ⟨p.x, p.y + lineHeight f ts⟩, st, ts⟩).2 := by
+  rw [draw_append_nl f atlas s1 s2 p st ts h]
+
+/-! ### 3. Alignment -/
+
+/-- The box of a line: what `measure_string` reports at the position `lines()` hands to `draw_string`. -/
+def lineBox (f : MonoFont) (st : Style) (ts : TextStyle) (line : List Nat) (p : Pt) : Rect :=
+  (measureString f st line (alignedPos f st ts line p) ts.baseline).bbox
+
+/-- Left: the line box starts at the x position. -/
+theorem align_left (f : MonoFont) (st : Style) (ts : TextStyle) (line : List Nat) (p : Pt)
+    (h : ts.alignment = .left) : (lineBox f st ts line p).tl.x = p.x := by
+  simp [lineBox, measureString_bbox, alignedPos_left f st ts line p h]
+
+/-- Right: the line box ends at the x position — its last column is `x` (for an empty line the
+zero-width box sits at `x + 1`, so the statement "one past the last column is `x + 1`" holds for every
+line). -/
+theorem align_right (f : MonoFont) (st : Style) (ts : TextStyle) (line : List Nat) (p : Pt)
+    (h : ts.alignment = .right) :
+    (lineBox f st ts line p).tl.x + ((lineBox f st ts line p).size.w : Int) - 1 = p.x := by
+  simp only [lineBox, measureString_bbox, alignedPos_right_x f st ts line p h]
+  omega
+
+/-- Center: twice the distance between the centre of the line box (`left + (w - 1) / 2`, in pixel
+centres) and the x position is 0 or 1 for a non-empty line (-1 for an empty one): within half a pixel;
+an even width puts the centre half a pixel right of `x` (truncating division of `w - 1`). -/
+theorem align_center (f : MonoFont) (st : Style) (ts : TextStyle) (line : List Nat) (p : Pt)
+    (h : ts.alignment = .center) :
+    let b := lineBox f st ts line p
+    let twiceOff : Int := 2 * b.tl.x + ((b.size.w : Int) - 1) - 2 * p.x;
+    (-1 : Int) ≤ twiceOff ∧ twiceOff ≤ 1 ∧ (0 < b.size.w → 0 ≤ twiceOff) := by
+  simp only [lineBox, measureString_bbox, alignedPos_center_x f st ts line p h, tdiv2]
+  split <;> omega
+
+/-- Alignment never moves a line vertically, and the width of the line box is `n` cells + `n - 1` gaps. -/
+theorem align_keeps_y_and_width (f : MonoFont) (st : Style) (ts : TextStyle) (line : List Nat) (p : Pt) :
+    (alignedPos f st ts line p).y = p.y ∧ (lineBox f st ts line p).size.w = bbWidth f line.length :=
+  ⟨alignedPos_y f st ts line p, rfl⟩
+
+example : lineBox ⟨64, 36, 4, 6, 0, 4, 6, 1, 3, 1, fun _ => 0⟩ ⟨some 1, none, .none, .none⟩
+    ⟨.right, .top, .percent 100⟩ [65, 66, 67] ⟨20, 5⟩ = ⟨⟨9, 5⟩, ⟨12, 6⟩⟩ := by decide
+example : lineBox ⟨64, 36, 4, 6, 0, 4, 6, 1, 3, 1, fun _ => 0⟩ ⟨some 1, none, .none, .none⟩
+    ⟨.center, .top, .percent 100⟩ [65, 66, 67] ⟨20, 5⟩ = ⟨⟨15, 5⟩, ⟨12, 6⟩⟩ := by decide
+
+/-! ### 4. Baseline -/
+
+/-- The top of every line box is the line's y position minus the baseline offset; `draw_string` draws
+the glyph cells from exactly that row (C14's `drawString` model subtracts the same offset). -/
+theorem baseline_shift (f : MonoFont) (st : Style) (ts : TextStyle) (line : List Nat) (p : Pt) :
+    (lineBox f st ts line p).tl.y = p.y - f.baselineOffset ts.baseline := by
+  simp [lineBox, measureString_bbox, alignedPos_y]
+
+/-- The documented offsets: Top 0, Bottom `ch - 1`, Middle `(ch - 1) / 2`, Alphabetic `font.baseline`
+(for metrics that fit `i32`, where `saturating_as` is the identity). -/
+theorem baseline_offsets (f : MonoFont) (h : MetricsInRange f) :
+    f.baselineOffset .top = 0 ∧ f.baselineOffset .bottom = ((f.ch - 1 : Nat) : Int) ∧
+    f.baselineOffset .middle = (((f.ch - 1) / 2 : Nat) : Int) ∧ f.baselineOffset .alphabetic = (f.baseline : Int) :=
+  ⟨baselineOffset_documented f h .top, baselineOffset_documented f h .bottom,
+   baselineOffset_documented f h .middle, baselineOffset_documented f h .alphabetic⟩
+
+example : MetricsInRange ⟨160, 120, 10, 20, 0, 15, 17, 1, 10, 1, fun _ => 0⟩ := by decide
+
+/-- The first line of a text sits at the text's position: its box top is `y - offset`. -/
+theorem first_line_baseline (f : MonoFont) (t : Text) :
+    ∃ l p rest, lines f t = (l, p) :: rest ∧ p.y = t.position.y ∧
+      (measureString f t.style l p t.ts.baseline).bbox.tl.y = t.position.y - f.baselineOffset t.ts.baseline := by
+  unfold lines
+  cases hs : splitNL t.text with
+  | nil => exact absurd hs (splitNL_ne_nil _)
+  | cons seg segs =>
+    refine ⟨_, _, _, rfl, alignedPos_y _ _ _ _ _, ?_⟩
+    simp [measureString_bbox, alignedPos_y]
+
+/-! ### 5. Multi-line text -/
+
+/-- `line_height`: `Pixels(p)` is `p`, `Percent(q)` is `ch * q / 100` (integer division), saturated to `i32`. -/
+theorem line_height_value (f : MonoFont) (ts : TextStyle) :
+    lineHeight f ts = satAsI32 (match ts.lineHeight with
+      | .pixels px => px
+      | .percent pc => f.ch * pc / 100) := by
+  unfold lineHeight LineHeight.toAbsolute fontLineHeight
+  cases ts.lineHeight <;> rfl
+
+/-- The i-th line (segment between `\n`s, one trailing `\r` stripped) is laid out at
+`(x, y + i * line_height)`, then aligned. -/
+theorem lines_positions (f : MonoFont) (t : Text) :
+    lines f t = (splitNL t.text).mapIdx (fun i seg =>
+      (stripCR seg, alignedPos f t.style t.ts (stripCR seg)
+        ⟨t.position.x, t.position.y + (i : Int) * lineHeight f t.ts⟩)) :=
+  linesGo_eq_mapIdx f t.style t.ts _ _
+
+/-- **A text containing `\n` = its lines drawn separately `line_height` apart**: the calls of `draw` are,
+in order, the calls of drawing the i-th segment as a text of its own at `(x, y + i * line_height)` ... -/
+theorem multiline_eq_lines (f : MonoFont) (atlas : Pt → Bool) (t : Text) :
+    (draw f atlas t).1 = ((splitNL t.text).mapIdx (fun i seg =>
+      (draw f atlas ⟨seg, ⟨t.position.x, t.position.y + (i : Int) * lineHeight f t.ts⟩, t.style, t.ts⟩).1)).flatten := by
+  unfold draw
+  rw [drawLines_calls]
+  exact linesGo_calls_eq_segments f atlas t.style t.ts _ _ (splitNL_no_nl t.text)
+
+/-- ... in recursive form, with the returned position: `seg ++ "\n" ++ rest` = `seg` at `p`, then `rest` at
+`p + (0, line_height)`; the returned position is the one of the last part. -/
+theorem multiline_step (f : MonoFont) (atlas : Pt → Bool) (seg rest : List Nat) (p : Pt) (st : Style)
+    (ts : TextStyle) (h : 10 ∉ seg) :
+    draw f atlas ⟨seg ++ 10 :: rest, p, st, ts⟩ =
+      ((draw f atlas ⟨seg, p, st, ts⟩).1 ++ (draw f atlas ⟨rest, ⟨p.x, p.y + lineHeight f ts⟩, st, ts⟩).1,
+       (draw f atlas ⟨rest, ⟨p.x, p.y + lineHeight f ts⟩, st, ts⟩).2) :=
+  draw_append_nl f atlas seg rest p st ts h
+
+example : (10 : Nat) ∉ [65, 66] := by decide
+example : splitNL [65, 10, 10, 66, 67, 10] = [[65], [], [66, 67], []] := by decide
+
+/-! ### 6. CR LF = LF -/
+
+/-- Replacing every `\r\n` by `\n` changes neither the contents nor the positions of the lines — for
+Left, Center and Right alignment (the `\r` is stripped before the line is measured) — provided the text
+contains no `\r\r\n` (there the replacement would make the preceding `\r` part of a new `\r\n`; the real
+code treats `a\r\r\n` as the line `a\r` ended by CR LF, see `crlf_needs_no_crcrlf`). -/
+theorem crlf_eq_lf (f : MonoFont) (t : Text) (h : hasCRCRLF t.text = false) :
+    lines f { t with text := crlfToLf t.text } = lines f t :=
+  lines_crlfToLf f t h
+
+/-- Hence the calls on the target (the picture), the returned position and the bounding box agree. -/
+theorem crlf_eq_lf_draw (f : MonoFont) (atlas : Pt → Bool) (t : Text) (h : hasCRCRLF t.text = false) :
+    draw f atlas { t with text := crlfToLf t.text } = draw f atlas t ∧
+    boundingBox f { t with text := crlfToLf t.text } = boundingBox f t := by
+  unfold draw boundingBox
+  rw [lines_crlfToLf f t h]
+  exact ⟨rfl, rfl⟩
+
+example : hasCRCRLF [65, 66, 13, 10, 67, 13, 10, 13, 10, 68, 13] = false := by decide
+example : crlfToLf [65, 66, 13, 10, 67, 13, 10, 13, 10, 68, 13] = [65, 66, 10, 67, 10, 10, 68, 13] := by decide
+
+/-- Terminator form: a text written as line contents, each ended by LF or by CR LF (`true`), then a last
+line — whichever terminators are chosen, the lines (contents and positions, every alignment) are those of
+the text with LF everywhere. Contents contain no `\n` and do not end in `\r` (so the text reads
+unambiguously); nothing else is assumed. -/
+theorem crlf_terminator_eq_lf (f : MonoFont) (L : List (List Nat × Bool)) (last : List Nat) (p : Pt)
+    (st : Style) (ts : TextStyle) (h : ∀ lc ∈ L, 10 ∉ lc.1 ∧ lc.1.getLast? ≠ some 13) (hl : 10 ∉ last) :
+    lines f ⟨joinLines L last, p, st, ts⟩ =
+      lines f ⟨joinLines (L.map (fun lc => (lc.1, false))) last, p, st, ts⟩ :=
+  lines_joinLines f L last p st ts h hl
+
+example : joinLines [([65, 66], true), ([], true), ([67], false)] [68] = [65, 66, 13, 10, 13, 10, 67, 10, 68] := by
+  decide
+
+/-- For every text (no hypothesis): splitting after the replacement = splitting, then stripping one `\r`
+from every segment that a `\n` ended. -/
+theorem crlf_split (t : List Nat) : splitNL (crlfToLf t) = stripAllButLast (splitNL t) :=
+  splitNL_crlfToLf t
+
+/-- The hypothesis of `crlf_eq_lf` is needed: `"A\r\r\n"` has the line `A\r`, `"A\r\n"` the line `A`. -/
+theorem crlf_needs_no_crcrlf :
+    lines ⟨64, 36, 4, 6, 0, 4, 6, 1, 3, 1, fun _ => 0⟩ ⟨crlfToLf [65, 13, 13, 10], ⟨0, 0⟩, ⟨some 1, none, .none, .none⟩, TextStyle.default⟩ ≠
+    lines ⟨64, 36, 4, 6, 0, 4, 6, 1, 3, 1, fun _ => 0⟩ ⟨[65, 13, 13, 10], ⟨0, 0⟩, ⟨some 1, none, .none, .none⟩, TextStyle.default⟩ := by
+  decide
+
 end EG.C15
